@@ -1,7 +1,8 @@
 //! Reference models.  Nothing in here calls the code under test (the jet *tables* — names,
-//! type names, roots — are read from the crate; C14 checks those against the C tables).
+//! type names, roots, bit codes — are read from the crate; C14 checks those against the C tables).
 pub mod bits;
 pub mod cmr;
 pub mod eval;
 pub mod jets;
 pub mod layout;
+pub mod wire;
